@@ -2,6 +2,7 @@
 C08 — dictionaries: what an accepted dictionary guarantees, agreement of the two loaders, the table-reuse verdict, the ID rule.
 -/
 import ZstdVerif.Model.Dict
+import ZstdVerif.Lemmas.DictRT
 namespace ZstdVerif.Props.C08
 open ZstdVerif ZstdVerif.Dict ZstdVerif.Gen
 
@@ -86,5 +87,35 @@ theorem wrong_dict_refused (fid did : Nat) : dictIDCheck fid did = some .dictWro
 
 example : dictNCountRepeat [1, 2, 0, 5] 3 2 = .check ∧ dictNCountRepeat [1, 2, 3, 0, 5] 4 2 = .valid := by decide
 example : dictIDCheck 7 8 = some .dictWrong ∧ dictIDCheck 0 8 = none ∧ dictIDCheck 7 7 = none := by decide
+
+/-! ### the dictionary round trip through the full decoder model (Lemmas/DictRT.lean) -/
+
+/-- **dict_roundtrip**: for every dictionary the decoder-side loader accepts (raw-content or formatted), every input and every valid
+tiling of it into raw / RLE / compressed blocks whose matches may reach into the dictionary and whose first sequences may use the
+dictionary's repeat offsets, the frame written with the dictionary loaded (header dictID absent, 0 or the dictionary's) is decoded by
+ZSTD_decompress_usingDict (`Frame.decompressAll`) with that dictionary to exactly the input -/
+theorem dict_roundtrip (d : Bytes) (D : Frame.Dict) (hload : loadD d = .ok D)
+    (a : HeaderW.HArgs) (bs : List BlockEnc.BlockChoice2) (x : ByteArray)
+    (hok : DictRT.FrameOKFrom D.content D.id (DictEnc.dictRep D) a bs x)
+    (cap : Nat) (hcap : x.size ≤ cap) (o : Frame.Opts) (hml : o.magicless = false) (hmb : o.maxBlockSize = 0) :
+    ∃ traces, Frame.decompressAll (DictEnc.serializeFrameDict D a bs x) D cap o = .ok (x, traces) :=
+  DictRT.dict_roundtrip d D hload a bs x hok cap hcap o hml hmb
+
+/-- what the loader guarantees about the repeat offsets it installs (positive; {1, 4, 8} for raw content; within the content for
+formatted dictionaries) -/
+theorem loadD_reps_ok {d : Bytes} {D : Frame.Dict} (h : loadD d = .ok D) :
+    BlockRT.RepPos (DictEnc.dictRep D) ∧
+    ((isRaw d = true ∧ D.id = 0 ∧ D.content = d ∧ DictEnc.dictRep D = BlockEnc.repStart) ∨
+     (isRaw d = false ∧ D.id = d.le32 4 ∧ (DictEnc.dictRep D).r0 ≤ D.content.size ∧ (DictEnc.dictRep D).r1 ≤ D.content.size ∧
+       (DictEnc.dictRep D).r2 ≤ D.content.size)) :=
+  DictRT.loadD_reps_ok h
+
+/-- **wrong_dict_refused_full**: the full decoder model returns dictionary_wrong on a serialized frame whose header names a dictionary
+ID ≠ 0 other than the loaded dictionary's, whatever the frame's blocks -/
+theorem wrong_dict_refused_full (rep0 : Rep.R) (a : HeaderW.HArgs) (ha : a.wf) (hnd : a.noDictID = false) (hid : a.dictID ≠ 0)
+    (hm : a.magicless = false) (dict : Frame.Dict) (hne : dict.id ≠ a.dictID) (bs : List BlockEnc.BlockChoice2) (x : ByteArray)
+    (cap : Nat) (o : Frame.Opts) (hml : o.magicless = false) :
+    Frame.decompressAll (DictEnc.serializeFrameFrom rep0 a bs x) dict cap o = .error .dictWrong :=
+  DictRT.wrong_dict_refused_full rep0 a ha hnd hid hm dict hne bs x cap o hml
 
 end ZstdVerif.Props.C08
